@@ -130,5 +130,17 @@ CHECKS["C11"] = (
     "Theorems about the loop skeleton: never more steps than the remaining budget and the returned counter equals start + executed; a finished episode is never stepped without reset; parameter updates happen only in iterations admitted by the gate (hence not before the warm-up threshold); the loop stops exactly when the requested number of episodes has finished. On every run all eleven off-policy routines are executed on scripted environments and compared with the extracted skeleton (returned counter, update iterations, reset count); generate_rollout, the round-robin and discounted-UCB selectors and train_uts / train_active_mt (with a contract-obeying stub routine) are checked against the property directly.",
     "Trusts: Coq kernel (no axioms), extraction, OCaml glue, harness, the scripted environment. Updates are observed as parameter changes between consecutive env.step calls. The multi-task schedulers and the bandit have no Coq model: they are decided by the reference rules in harness/c11.py (float64 decision rule, arg-max margin > 1e-6); train_smt is exercised only by the repository's own test.",
 )
+CHECKS["C06"] = (
+    "DESIGN.md §2 C06",
+    "Coq proof (Polyak update over parameter trees of any shape: leaf-wise law, shape preservation, tau=1 hard copy, tau=0 no-op; a target trace changes only at iterations its cadence predicate admits) + correspondence of soft/hard_target_net_update on every layer type and of target parameters snapshotted at every env.step of every target-maintaining routine",
+    "Theorems over all trees, all tau and all cadence predicates / online traces. On every run the real update functions are executed on MLP, LayerNorm-MLP, double-Q, SALE and model-based-encoder trees and compared leaf by leaf with the law and with the extracted model (online network bitwise unchanged); clone targets of nature_dqn/ddpg/td3/sac are checked for shared variables; for nature_dqn, ddqn, per, ddpg, td3, td3_lap, sac, td7 (incl. fixed embeddings, and checkpoint copies in deferred-training mode) and mrq every iteration outside the documented update points leaves each target bitwise unchanged and every update point is the documented hard copy / Polyak step of its source.",
+    "Trusts: Coq kernel + the real-number axioms of the standard library (Print Assumptions list in the evidence), extraction, OCaml glue, harness, scripted environment. The cadence predicates (due_* in coq/Model/Target.v) are hand-written per routine from the documentation and compared with the harness's own predicates; nnx.update / optax.incremental_update are exercised, not modelled. float32 tolerance 1e-6 / 1e-5.",
+)
+CHECKS["C10"] = (
+    "DESIGN.md §2 C10",
+    "Coq proof over the reals (clip lands in [low, high] for every input when low <= high; exploration = clip(pi + noise*half range*z); smoothing noise bounded by noise_clip*half range; tanh-scaled output inside the bounds for every network output; CEM candidate inside [lb, ub] for every mean in the box, variance and |z| <= 2) + correspondence of the real samplers on recomputed key variates and of every action received by the recording environment",
+    "Theorems for all real inputs and bounds. On every run make_sample_actions / make_sample_target_actions are executed with asymmetric, tiny, large, per-dimension different bounds and compared with the extracted model on the key's recomputed N(0,1) variates (bounds exact, pre-clip form, noise clip); DeterministicTanhPolicy on outputs up to 1e30 and +-inf; cem_sample with means inside / near / on the bounds; and ddpg, td3, td3_lap, td7, mrq, pets training runs with random bounds, checking every env.step action and every smoothed target action computed during training.",
+    "Trusts: Coq kernel + standard-library real-number axioms, extraction, OCaml glue, harness. Theorems are about real arithmetic; float32 rounding is handled by the correspondence: the clipped samplers must respect the bounds exactly, tanh / CEM / PETS outputs within 4 float32 ulp of the bound (the property's 'up to floating-point rounding of the bound itself'). The distribution of jax.random.normal is not checked (variates are recomputed from the key).",
+)
 _PENDING = "check not built yet in this revision (planned: Coq model + correspondence, see DESIGN.md §2)"
 NOT_APPLICABLE = {f"C{i:02d}": _PENDING for i in range(1, 21) if f"C{i:02d}" not in CHECKS}
